@@ -464,11 +464,72 @@ def drive_real(exe, seed, api, variant, style, max_calls):
     return se
 
 
+ALL_INITS = sorted(DOC_MASK)
+
+
+def gen_chains(ctx, n_chains):
+    """Several coders on ONE handle without lzma_end: every public init function (random order, some twice) and the stub
+    with random masks. After each (re-)initialisation every action 0..5 is tried — either each on a freshly re-initialised
+    handle, or the unsupported ones first and then a few calls that leave the handle in some state (idle twice, end of
+    stream, a flush in progress, fatal error, overwritten totals) for the NEXT re-initialisation to clean up."""
+    rng = ctx.rng
+    hs = []
+    for _ in range(n_chains):
+        order = list(ALL_INITS) + [rng.choice(ALL_INITS) for _ in range(4)] + ["stub"] * 6
+        rng.shuffle(order)
+        ops = []
+        for x in order:
+            def init_op():
+                verb = "reinit" if ops else "new"
+                if x == "stub":
+                    return "%s stub %d %d" % (verb, init_op.mask, rng.randrange(4))
+                return "%s real %s 0 200 2048 2048 -1" % (verb, x)
+            init_op.mask = rng.choice((31, 9, 11, 29, 8, 1, 0, rng.randrange(32)))
+            mask = init_op.mask if x == "stub" else DOC_MASK[x]
+            ops.append(init_op())
+            actions = [0, 1, 2, 3, 4, 5]
+            rng.shuffle(actions)
+            if rng.random() < 0.5:
+                for n, a in enumerate(actions):
+                    if n:
+                        ops.append(init_op())
+                    ops.append("call %d s:0:%d s:0:%d - - 1 1 0" % (a, rng.choice((0, 8, 64)), rng.choice((8, 64))))
+            else:
+                sup = [a for a in range(5) if (mask >> a) & 1]
+                for a in actions:
+                    if a not in sup:
+                        ops.append("call %d s:0:8 s:0:8 - - 1 1 0" % a)
+                if sup:
+                    k = rng.randrange(6)
+                    a0 = rng.choice(sup)
+                    if k == 0:      # idle twice: allow_buf_error set, then LZMA_BUF_ERROR
+                        ops += ["call %d s:0:0 s:0:0 - - 0 0 0" % a0] * 3
+                    elif k == 1:    # run to the end of the stream
+                        a3 = 3 if 3 in sup else a0
+                        ops += ["call %d s:0:%d s:0:2048 - - 1 1 1" % (a3, 64 if x == "stub" else 2048)] + ["call %d k k - - 0 0 1" % a3] * 2
+                    elif k == 2:    # a flush/finish left in progress
+                        fl = [a for a in sup if a != 0] or [a0]
+                        ops.append("call %d s:0:40 s:0:0 - - 1 0 0" % rng.choice(fl))
+                    elif k == 3:    # fatal error (stub) / ordinary use (real)
+                        ops.append("call %d s:0:30 s:0:30 - - 1 1 9" % a0)
+                        ops.append("call %d k k - - 1 1 0" % a0)
+                    elif k == 4:    # totals overwritten by the application
+                        ops.append("call %d s:0:30 s:0:30 - %d:%d 2 2 0" % (a0, rng.choice((5, U64 - 1)), rng.choice((7, U64 - 2))))
+                    else:           # every supported action once (later ones may be locked out by the first)
+                        for a in sup:
+                            ops.append("call %d s:0:20 s:0:20 - - 1 1 0" % a)
+        if rng.random() < 0.8:
+            ops.append("end")
+        hs.append(("chain", ops))
+    return hs
+
+
 def gen_histories(ctx):
     quick = ctx.quick()
     hs = gen_exhaustive(ctx)
     hs += gen_random_stub(ctx, 60 if quick else 3000, 100 if quick else 200)
     hs += gen_real(ctx, 1 if quick else 10, 40 if quick else 90)
+    hs += gen_chains(ctx, 12 if quick else 150)
     return hs
 
 
@@ -532,10 +593,8 @@ def model_lines(ops, impl):
     real = False
     for op, res in zip(ops, impl):
         t = op.split()
-        if t[0] == "new":
+        if t[0] in ("new", "reinit"):
             real = t[1] == "real"
-        elif t[0] == "reinit":
-            real = False
         if t[0] == "call" and real and res is not None and not res.startswith("bad-op"):
             d = parse_call(res)
             if d.get("inner", "-") != "-":
@@ -584,7 +643,8 @@ def monitor(ops, impl):
             break
         if t[0] in ("new", "reinit"):
             kind = t[1]
-            if t[0] == "new" or st is None:
+            if t[0] == "new" or st is None or kind == "real":
+                # (on `reinit real` the harness-application resets its four buffer members: the regions are replaced)
                 st = {"nin": None, "ain": 0, "nout": None, "aout": 0}
             mask = None
             if kind == "stub":
@@ -833,7 +893,7 @@ def run(ctx):
                        "changed lengths, reserved member, totals overwrite, scripted inner (consumed, produced, ret)); exhaustive: every pair of "
                        "calls over 6 actions x input kept/changed x 7 inner outcomes from a fresh handle and every call (thorough: pair) from each "
                        "of the 12 wrapper states; every mask x action; every reserved member; NULL cases; plus seeded random long histories on the "
-                       "stub and on 17 real coder configurations; non-trivial = the history contains a call; distinct by full op text")
+                       "stub and on 17 real coder configurations; chains of all 18 public init functions and the stub on ONE handle without lzma_end (every action probed after each re-initialisation); non-trivial = the history contains a call; distinct by full op text")
     ctx.assumptions += [
         "Lean 4 kernel; the model in Model/LzmaCode.lean is what the theorems are about; its tie to common.c is the regenerated control table "
         "(decide +kernel), the supported_actions/enum tables, and the correspondence run",
